@@ -328,6 +328,8 @@ class Gen:
                 add("fixedct", "zerofree", 2)
             if len(self.unused(free)) >= 2 - (1 if free else 0):
                 add("ctlist", "tensor")
+            if len(self.unused(free)) >= 3:
+                add("interleaved", "compound", 2)
             if len(self.unused(free)) >= 2:
                 add("zerodims", "zerofree", 2)
             if len(self.unused(free)) >= 1:
@@ -541,6 +543,22 @@ class Gen:
             other = e((), free, d)
             c = self.safe_cond()
             return ["cond", c, z, other] if self.chance(1, 2) else ["cond", c, other, z]
+        if op == "interleaved":
+            # a compound product whose operands both carry free indices that interleave (a < b < c by index count):
+            # op(A[a, c, :], B[b, :]) contracted with C[a, b, c]
+            a_, b_, c_ = sorted(self.unused(free))[:3] if self.chance(1, 2) else sorted(self.draw(st.permutations(self.unused(free)))[:3])
+            k = self.pick(["inner", "dot", "outer", "cross"] if g == 3 else ["inner", "dot", "outer"])
+            A_ = self.leaf((g,), (a_, c_)) if self.chance(2, 3) else e((g,), (a_, c_), min(d, 1))
+            B_ = self.leaf((g,), (b_,)) if self.chance(2, 3) else e((g,), (b_,), min(d, 1))
+            if self.chance(1, 2):
+                A_, B_ = B_, A_
+            x = [k, A_, B_]
+            if k == "outer":
+                x = ["index", x, [self.draw(st.integers(0, g - 1)), self.draw(st.integers(0, g - 1))]]
+            elif k == "cross":
+                x = ["index", x, [self.draw(st.integers(0, 2))]]
+            out = ["mul", x, self.leaf((), (a_, b_, c_))]
+            return ["mul", out, self.leaf((), free)] if free else out
         if op == "ctlist":
             # as_tensor(L[i], (j,))[p] with L a list tensor whose entries carry the free index j: the component tensor binds
             # j while the list is indexed by an index it does not bind
